@@ -365,6 +365,8 @@ type Ctx struct {
 	active map[string]bool
 	// Steps counts CFG edges examined (reported as evidence).
 	Steps int
+	// OnlyReturn, if set, restricts the exits considered to this instruction.
+	OnlyReturn *ssa.Return
 }
 
 func New(p *load.Program, cg *callgraph.Graph, assume ...Assumption) *Ctx {
@@ -517,6 +519,9 @@ func (c *Ctx) search(fn *ssa.Function, start *ssa.BasicBlock, startPred int, o O
 		last := b.Instrs[len(b.Instrs)-1]
 		switch t := last.(type) {
 		case *ssa.Return:
+			if c.OnlyReturn != nil && t != c.OnlyReturn && t.Parent() == c.OnlyReturn.Parent() {
+				continue
+			}
 			if c.exitMaySucceedWithout(fn, t, n.st.pred, o, g) {
 				return false, witness(n, fmt.Sprintf("return at %s with %s, gate %q not established", c.P.InstrPos(t), o, g.Key))
 			}
